@@ -247,6 +247,12 @@ impl Ctx {
 
     /// record a violation with its (already minimal) case
     pub fn violation<C: Serialize>(&mut self, check: &str, what: String, case: &C) {
+        // the harness process running out of descriptors is harness trouble (the library keeps one descriptor per worker
+        // of every daemon ever created in this process open), not an observation about the property
+        if what.contains("(os error 24)") {
+            self.note_inconclusive(format!("{check}: harness ran out of file descriptors: {what}"));
+            return;
+        }
         let case_v = serde_json::to_value(case).unwrap_or(Value::Null);
         let body = json!({"property": self.prop, "check": check, "what": what, "case": case_v});
         let text = serde_json::to_string_pretty(&body).unwrap();
